@@ -169,6 +169,8 @@ def check_fc(spec, ctx):
         ctx.label("fc_on_chunk")
     strands = {f["strand"] for f in feats}
     spl_len = lambda f: sum(e - s for s, e in f["blocks"])  # noqa: E731
+    if any(f.get("nested") for f in feats):
+        ctx.label("feature_with_nested_blocks")
     if len(feats) >= 2:
         lens = sorted(spl_len(f) for f in feats)
         if lens[-1] == lens[-2]:
@@ -189,13 +191,15 @@ def check_fc(spec, ctx):
         ctx.label("members_carry_the_sequence")
     else:
         fc = mkfc(c, parent)
-    lo, hi = min(f["blocks"][0][0] for f in feats), max(f["blocks"][-1][1] for f in feats)
+    lo, hi = min(f["blocks"][0][0] for f in feats), max(b_[1] for f in feats for b_ in f["blocks"])
     ctx.eq("fc_span", (fc.start, fc.end), (lo, hi))
     ctx.eq("fc_is_coding", fc.is_coding, False)
     types = set()
     for f in feats:
         types |= set(f.get("feature_types") or [])
     ctx.eq("fc_feature_types", sorted(fc.feature_types), sorted(types))
+    # the ranking key: the spliced length of a member is the sum of its block lengths
+    ctx.eq("fc_member_spliced_lengths", [len(fi_) for fi_ in fc.feature_intervals], [spl_len(f) for f in feats])
     p = fc.get_primary_feature()
     idx = [i for i, f in enumerate(fc.feature_intervals) if f is p]
     ctx.eq("fc_primary_choice", idx[0] if idx else None, exp_primary, extra=[(spl_len(f), f.get("is_primary_feature")) for f in feats])
@@ -309,13 +313,16 @@ def strat_fc(draw, tier="quick"):
             f["blocks"] = [[s + sh, e + sh] for s, e in base["blocks"]]
         else:
             f = draw(S.feature_spec(max_blocks=3, max_len=7))
+            # a block nested inside another: the spliced length counts the shared bases twice (it is the sum of the block lengths)
+            if S.nest_block(draw, f["blocks"], 4):
+                f["nested"] = True
         f["feature_id"] = "f%d" % i
         f["is_primary_feature"] = draw(st.sampled_from([None, None, None, None, False, True]))
         feats.append(f)
     c = {"features": feats, "feature_collection_name": draw(st.one_of(st.none(), S.IDENT)), "feature_collection_id": "fc", "qualifiers": {}}
     sp = {"obj": c}
     if draw(st.booleans()):
-        hi = max(f["blocks"][-1][1] for f in feats)
+        hi = max(b_[1] for f in feats for b_ in f["blocks"])
         sp["genome"] = draw(S.dna(hi + 1, hi + 3))
         if draw(st.integers(0, 2)) == 0:
             a = draw(st.integers(0, hi))
